@@ -339,9 +339,6 @@ theorem mem_linkedAddrs {s : State} {i : Nat} {a : Addr} : a ∈ linkedAddrs s i
   unfold linkedAddrs
   rw [mem_sortKeys, Tbl.get_unit_iff_mem_keys]
   simp only [List.mem_map, List.mem_filter, decide_eq_true_eq, Prod.exists, exists_eq_right]
-  constructor
-  · rintro ⟨i', hm, e⟩; exact e ▸ hm
-  · intro hm; exact ⟨i, hm, rfl⟩
 
 theorem linkedAddrs_nodup {s : State} (h : Tbl.Nodup s.nodeForPlan) (i : Nat) : (linkedAddrs s i).Nodup := by
   unfold linkedAddrs
@@ -363,7 +360,16 @@ theorem filterMap_eq_self {β : Type} {f : β → Option β} {l : List β} (h : 
 
 theorem getNode_iff {s : State} (hn : PartOK s.nodeActive s.nodeInactive (·.addr) (·.status)) {a : Addr} {n : Node} :
     getNode s a = some n ↔ (s.nodeActive.get a = some n ∨ s.nodeInactive.get a = some n) := by
-  unfold getNode; exact hn.get_either
+  unfold getNode
+  cases ha : s.nodeActive.get a with
+  | none => simp
+  | some x =>
+    simp only [Option.some.injEq]
+    constructor
+    · intro e; exact Or.inl e
+    · rintro (e | e)
+      · exact e
+      · rw [hn.disj a x ha] at e; cases e
 
 /-- With every linked node present under its own key the exported node list of a plan is the list of its link keys. -/
 theorem exportPlanNodes_eq {s : State} (hn : PartOK s.nodeActive s.nodeInactive (·.addr) (·.status)) (i : Nat)
